@@ -438,7 +438,7 @@ KEYWORDS = set('as break const continue crate else enum extern false fn for if i
 
 
 def rewrite_body(cl: Closure, sk: Skeleton, src: str, op: str, captures: Dict[str, str],
-                 helper_sigs: Dict[str, List[str]], allow_closure_params=False) -> Extracted:
+                 helper_sigs: Dict[str, List[str]], allow_closure_params=False, allow_calls=()) -> Extracted:
     body = cl.body
     if not body:
         raise NotExtractable('empty closure body')
@@ -484,7 +484,7 @@ def rewrite_body(cl: Closure, sk: Skeleton, src: str, op: str, captures: Dict[st
                 sctl_used = True
                 i += 2
                 continue
-            if t.kind == 'ident' and t.text in ('inner_subscribe', 'subscribe', 'new_observer', 'spawn'):
+            if t.kind == 'ident' and t.text in ('inner_subscribe', 'subscribe', 'new_observer', 'spawn') and t.text not in allow_calls:
                 raise NotExtractable('handler subscribes/creates observers (%s)' % t.text)
             if t.is_id('Arc'):
                 j = match_seq(ts, i, ['Arc', ':', ':', 'clone', '(…)'])
